@@ -197,6 +197,14 @@ func gJval(v interface{}) (string, bool) {
 		if t != math.Trunc(t) || math.Abs(t) > 9007199254740992 {
 			return "", false
 		}
+		// ---- C20 begin: the model prints a number by its decimal digits.  A plain operand / call argument is printed by
+		// fmt.Sprint(float64), which switches to exponent notation at 10^6 (1e+06) and prints -0 for negative zero; only the
+		// value of {"const": n} goes through FormatFloat 'f' (digits up to 1e21, handled by the caller).  Such numbers stay
+		// with the implementation-side oracle.
+		if math.Abs(t) >= 1e6 || t == 0 && math.Signbit(t) {
+			return "", false
+		}
+		// ---- C20 end
 		return "(JNum " + gZ(int64(t)) + ")", true
 	case []interface{}:
 		var xs []string
@@ -217,6 +225,11 @@ func gJval(v interface{}) (string, bool) {
 		var xs []string
 		for _, k := range ks {
 			s, ok := gJval(t[k])
+			// ---- C20 begin: the constant path prints every integral value below 2^53 by its digits
+			if f, isNum := t[k].(float64); !ok && isNum && k == "const" && f == math.Trunc(f) && math.Abs(f) <= 9007199254740992 && !(f == 0 && math.Signbit(f)) {
+				s, ok = "(JNum "+gZ(int64(f))+")", true
+			}
+			// ---- C20 end
 			if !ok {
 				return "", false
 			}
